@@ -331,6 +331,46 @@ def random_history(rng, n):
     return steps[:n]
 
 
+def long_history(rng, kind):
+    """histories in which one transmission (or one idle stretch) outlasts the 8-bit receive sequence counter"""
+    cc = rng.randrange(16)
+    two = kind % 2 == 1
+
+    def letter(cls, **kw):
+        b = {"cls": cls, "id": 0, "btf": 0, "a": False, "cc": cc}
+        b.update(kw)
+        return b
+
+    steps = []
+    if kind in (0, 1):      # voice call of 45..50 superframes
+        steps.append((1, "burst", letter("VH")))
+        for sf in range(rng.randrange(45, 51)):
+            steps.append((1, "burst", letter("VS")))
+            for k in range(5):
+                steps.append((1, "burst", letter("VE")))
+                if two and rng.random() < 0.2:
+                    steps.append((2, "burst", letter(rng.choice(["VH", "VS", "VE", "TERM", "CSBK"]))))
+        steps.append((1, "burst", letter("TERM")))
+    elif kind in (2, 3):    # idle stretch of signalling bursts, then a short call across the wrap-around
+        for k in range(rng.randrange(240, 262)):
+            steps.append((1, "burst", letter(rng.choice(["CSBK", "OTHER", "TERM"]))))
+            if two and rng.random() < 0.2:
+                steps.append((2, "burst", letter("VE")))
+        steps.append((1, "burst", letter("VH")))
+        for k in range(rng.randrange(10, 30)):
+            steps.append((1, "burst", letter("VE")))
+        steps.append((1, "burst", letter("TERM")))
+    else:                   # longest data transmission the header can announce, unconfirmed rate 1/2, plus stray blocks
+        steps.append((1, "burst", letter("DH", btf=127, a=False, udp=False)))
+        for k in range(127 + rng.randrange(0, 4)):
+            steps.append((1, "burst", letter("R12", udpz=False)))
+        steps.append((1, "burst", letter("VH")))
+        for k in range(140):
+            steps.append((1, "burst", letter("VE")))
+        steps.append((1, "burst", letter("TERM")))
+    return steps
+
+
 def run(ctx):
     ctx.rule = ("TLC explores the tracker design model (17-letter burst alphabet) to a depth bound; the dumped "
                 "edges are covered by transition tours replayed on a real Terminal with concrete bursts; random "
@@ -389,6 +429,8 @@ def run(ctx):
         steps = random_history(ctx.rng, ctx.rng.randrange(10, ln))
         obs = tuple(ctx.rng.random() < 0.4 for _ in range(ctx.rng.randrange(1, 4)))
         jobs.append((ctx.seed * 7919 + i, obs, steps))
+    for i in range(10 if ctx.quick else 60):       # transmissions longer than the 8-bit receive sequence counter
+        jobs.append((ctx.seed * 7919 + n + i, (False,), long_history(ctx.rng, i % 5)))
     with Pool(core.NCPU) as pool:
         hist = pool.map(run_history, jobs, chunksize=4)
     for tr, j in zip(hist, jobs):
